@@ -3,12 +3,19 @@
 (* placement rule of AtomOrbitals: TLC checks, for every basis with up to      *)
 (* MaxL+1 angular momenta x MaxFun radial functions and every sequence of up   *)
 (* to MaxRec (l, state) records, that the rule is a placement.                 *)
-EXTENDS AtomOrbitals
+EXTENDS AtomOrbitals, Json, IOUtils, SequencesExt
 CONSTANTS MaxL, MaxFun, MaxRec
 VARIABLES nfun, recs, r, ic, im, filled, done
 vars == <<nfun, recs, r, ic, im, filled, done>>
 Bases == UNION {[1..n -> 1..MaxFun] : n \in 1..(MaxL + 1)}
 RecSeqs(nf) == UNION {[1..n -> 0..(Len(nf) - 1)] : n \in 1..MaxRec}
+\* spec -> code: every shape of the bounded universe in which the records are listed per l, as the program prints them; the harness
+\* renders one output file per shape and loads it with the real reader
+Sorted(rs) == \A i \in 1..(Len(rs) - 1) : rs[i] <= rs[i + 1]
+Shapes == {[nfun |-> b, recs |-> rs] : b \in Bases, rs \in {x \in UNION {[1..n -> 0..MaxL] : n \in 1..MaxRec} : TRUE}}
+ASSUME IF "SHAPES_FILE" \in DOMAIN IOEnv
+       THEN JsonSerialize(IOEnv.SHAPES_FILE, [shapes |-> SetToSeq({sh \in Shapes : Sorted(sh.recs) /\ \A i \in 1..Len(sh.recs) : sh.recs[i] < Len(sh.nfun)})])
+       ELSE TRUE
 Init == /\ nfun \in Bases
         /\ recs \in RecSeqs(nfun)
         /\ r = 1 /\ ic = 0 /\ im = 0 /\ filled = {} /\ done = FALSE
